@@ -182,4 +182,132 @@ theorem consumed_wrapAs (d : Dialect) (hd : d.b128min = true) (t : ATy) (p : FP)
         rw [hco, hr1len, List.length_append, hlen]
     · rw [hcl]; unfold expected; simp [he]
 
+/-! ## leaves -/
+
+/-- `parseField … = ok (v, rest)` in `canon` mode round-trips through `marshalField` -/
+def RT (d : Dialect) (t : ATy) (p : FP) (bs : Bytes) (v : AVal) (rest : Bytes) : Prop :=
+  ∃ enc, marshalField d t p v = .ok enc ∧ bs = enc ++ rest
+
+theorem canon_dialect (d : Dialect) : (d.forMode .canon).b128min = true := rfl
+
+/-- the leaf types whose universal tag does not depend on the value -/
+def ATy.simpleLeaf : ATy → Bool
+  | .bool | .int32 | .int64 | .bigInt | .enum | .bitString | .octets | .oid | .flag => true
+  | _ => false
+
+theorem canon_simple (t : ATy) (p : FP) (hs : t.simpleLeaf = true) (hcp : canonParams t p = true) :
+    p.timeType = 0 ∧ p.stringType = 0 ∧ p.set = false := by
+  cases t <;> simp [ATy.simpleLeaf] at hs <;> simp [canonParams] at hcp <;> simp [hcp]
+
+/-- content round trip of every simple leaf, as `parseLeaf` / `marshalLeafBody` pair them -/
+theorem simple_leaf_content (d : Dialect) (hd : d.b128min = true) (t : ATy) (p : FP) (hs : t.simpleLeaf = true) (tl : TL) (utag : Nat)
+    (inner consumed : Bytes) (v : AVal) (h : parseLeaf d .canon t p tl utag inner consumed = .ok v) :
+    marshalLeafBody t p v = .ok inner ∧ v.unwrap = v ∧ (∀ w, v ≠ .absent w) := by
+  unfold parseLeaf at h
+  cases t <;> simp [ATy.simpleLeaf] at hs <;> simp only [Mode.isLax, Mode.isCanon, Bool.true_and] at h
+  · -- bool
+    cases hb : parseBool inner with
+    | error e => rw [hb] at h; cases h
+    | ok b => rw [hb] at h; cases h; exact ⟨by simp [marshalLeafBody, parseBool_roundtrip _ _ hb], rfl, by intro w hw; cases hw⟩
+  · cases hb : parseInt32 false inner with
+    | error e => rw [hb] at h; cases h
+    | ok b => rw [hb] at h; cases h; exact ⟨by simp [marshalLeafBody, parseInt32_roundtrip _ _ hb], rfl, by intro w hw; cases hw⟩
+  · cases hb : parseInt64 false inner with
+    | error e => rw [hb] at h; cases h
+    | ok b => rw [hb] at h; cases h; exact ⟨by simp [marshalLeafBody, parseInt64_roundtrip _ _ hb], rfl, by intro w hw; cases hw⟩
+  · cases hb : parseBigInt false inner with
+    | error e => rw [hb] at h; cases h
+    | ok b => rw [hb] at h; cases h; exact ⟨by simp [marshalLeafBody, parseBigInt_roundtrip _ _ hb], rfl, by intro w hw; cases hw⟩
+  · cases hb : parseInt32 false inner with
+    | error e => rw [hb] at h; cases h
+    | ok b => rw [hb] at h; cases h; exact ⟨by simp [marshalLeafBody, parseInt32_roundtrip _ _ hb], rfl, by intro w hw; cases hw⟩
+  · cases hb : parseBitString inner with
+    | error e => rw [hb] at h; cases h
+    | ok b => rw [hb] at h; cases h; exact ⟨by simp [marshalLeafBody, parseBitString_roundtrip _ _ hb], rfl, by intro w hw; cases hw⟩
+  · cases h; exact ⟨rfl, rfl, by intro w hw; cases hw⟩
+  · cases hb : parseOID d false inner with
+    | error e => rw [hb] at h; cases h
+    | ok b => rw [hb] at h; cases h; exact ⟨by simp [marshalLeafBody, parseOID_roundtrip d hd _ _ hb], rfl, by intro w hw; cases hw⟩
+  · -- flag: canon demands empty content
+    by_cases he : (!inner.isEmpty) = true
+    · rw [if_pos he] at h; cases h
+    · rw [if_neg he] at h; cases h
+      have : inner = [] := by simpa using he
+      exact ⟨by simp [marshalLeafBody, this], rfl, by intro w hw; cases hw⟩
+
+theorem nilBigInt_false (t : ATy) (v : AVal) (h : ∀ w, v ≠ .absent w) : nilBigInt t v = false := by
+  unfold nilBigInt
+  cases v <;> first | (exact absurd rfl (h _)) | (cases t <;> rfl)
+
+theorem absent_marshal (d : Dialect) (t : ATy) (p : FP) (w : AVal) (hna : t.isAny = false) (hom : omitted t p (.absent w) = true) :
+    marshalField d t p (.absent w) = .ok [] := by
+  cases t <;> first | (cases hna; done) | simp only [marshalField, marshalShell, hom, if_true]
+
+/-- inversion common to every type: in `canon` mode a successful `fieldShell` is an omitted absent field or a body -/
+theorem canon_shell (d : Dialect) (t : ATy) (p : FP) (bs : Bytes) (k : TL → Nat → Bytes → Bytes → Except Err AVal) (v : AVal) (rest : Bytes)
+    (h : fieldShell d .canon t p bs k = .ok (v, rest)) :
+    (t.isAny = false ∧ ∃ w, v = .absent w ∧ omitted t p v = true ∧ bs = rest) ∨
+    (∃ tl utag inner consumed outer, header (d.forMode .canon) t p bs = .ok (.body tl utag inner rest consumed outer) ∧
+      k tl utag inner consumed = .ok v ∧ canonParams t p = true ∧ canonOuter tl (inner.length + rest.length) outer = true ∧
+      omitted t p v = false) := by
+  cases fieldShell_ok _ _ _ _ _ _ _ _ h with
+  | emptyAbsent hb ho hr hv hom =>
+    subst hb hr
+    refine Or.inl ⟨?_, _, hv, hom rfl, rfl⟩
+    cases hany : t.isAny with
+    | false => rfl
+    | true =>
+      have : omitted t p v = false := by
+        cases t <;> simp [ATy.isAny] at hany
+        simp [omitted]
+      rw [hom rfl] at this; cases this
+  | any _ hc _ => cases hc
+  | absent hh ho hr hv hom =>
+    subst hr
+    refine Or.inl ⟨?_, _, hv, hom rfl, rfl⟩
+    cases hany : t.isAny with
+    | false => rfl
+    | true =>
+      have : omitted t p v = false := by
+        cases t <;> simp [ATy.isAny] at hany
+        simp [omitted]
+      rw [hom rfl] at this; cases this
+  | flagSet _ hc _ => cases hc
+  | body tl utag inner consumed outer hh hk hcanon =>
+    obtain ⟨hc1, hom⟩ := hcanon rfl
+    simp only [Bool.and_eq_true] at hc1
+    exact Or.inr ⟨tl, utag, inner, consumed, outer, hh, hk, hc1.1, hc1.2, hom⟩
+
+theorem utagOf_simple (t : ATy) (p : FP) (tl : TL) (hs : t.simpleLeaf = true) (hset : p.set = false) :
+    utagOf t p tl = (universalType t).2.1 := by
+  cases t <;> simp [ATy.simpleLeaf] at hs <;>
+    simp [utagOf, universalType, hset, tagPrintableString, tagUTCTime, tagBoolean, tagInteger, tagEnum, tagBitString, tagOctetString, tagOID]
+
+/-- **marshal_parse for the simple leaves** BOOLEAN, INTEGER (int32 / int64 / *big.Int), ENUMERATED, BIT STRING, OCTET STRING,
+OBJECT IDENTIFIER, Flag — under every field-parameter record -/
+theorem simple_leaf_RT (d : Dialect) (t : ATy) (p : FP) (bs : Bytes) (v : AVal) (rest : Bytes) (hs : t.simpleLeaf = true)
+    (h : parseField d .canon t p bs = .ok (v, rest)) : RT d t p bs v rest := by
+  have hna : t.isAny = false := by cases t <;> simp [ATy.simpleLeaf] at hs <;> rfl
+  have hraw : t ≠ .rawValue := by intro h; subst h; simp [ATy.simpleLeaf] at hs
+  have hshell : parseField d .canon t p bs = fieldShell d .canon t p bs (fun tl utag inner consumed => parseLeaf (d.forMode .canon) .canon t p tl utag inner consumed) := by
+    cases t <;> simp [ATy.simpleLeaf] at hs <;> simp only [parseField]
+  rw [hshell] at h
+  rcases canon_shell d t p bs _ v rest h with ⟨_, w, rfl, hom, rfl⟩ | ⟨tl, utag, inner, consumed, outer, hh, hk, hcp, hco, hom⟩
+  · exact ⟨[], absent_marshal d t p w hna hom, rfl⟩
+  · obtain ⟨hcw, hsp, hut, _⟩ := consumed_wrapAs _ (canon_dialect d) t p bs hraw _ _ _ _ _ _ hh hcp hco
+    obtain ⟨hbody, hunw, hnb⟩ := simple_leaf_content _ (canon_dialect d) t p hs tl utag inner consumed v hk
+    obtain ⟨htt, hst, hset⟩ := canon_simple t p hs hcp
+    have hu := utagOf_simple t p tl hs hset
+    refine ⟨consumed, ?_, hsp⟩
+    rw [hcw, hut, hu]
+    have hm : marshalField d t p v = marshalShell t p v (fun v => marshalLeafBody t p v) := by
+      cases t <;> simp [ATy.simpleLeaf] at hs <;> simp only [marshalField]
+    rw [hm]
+    unfold marshalShell
+    rw [if_neg (by rw [hom]; simp)]
+    rw [hunw]
+    have hnb' : nilBigInt t v = false := nilBigInt_false t v hnb
+    cases t <;> simp [ATy.simpleLeaf] at hs <;>
+      simp [hnb', htt, hst, hset, hbody, universalType]
+
 end CTV.Der
